@@ -101,7 +101,13 @@ class NSpace(object):
             return False
         a, b = self.weight, o.weight
         if isinstance(a, NA) or isinstance(b, NA):
-            return a is b
+            if a is b:
+                return True
+            if not (isinstance(a, NA) and isinstance(b, NA)) or \
+                    a.a.shape != b.a.shape:
+                return False
+            return all((to_rat(p) - to_rat(q)).is_zero()
+                       for p, q in zip(a.a.flat, b.a.flat))
         return (to_rat(a) - to_rat(b)).is_zero()
 
     def __ne__(self, o):
@@ -164,6 +170,20 @@ class NElem(object):
 
     def __repr__(self):
         return 'Elem(%r)' % (self.data.a.tolist(),)
+
+
+_EW_UFUNCS = frozenset((
+    'log', 'exp', 'sqrt', 'abs', 'absolute', 'sign', 'sin', 'cos', 'tan',
+    'sinh', 'cosh', 'tanh', 'arctan', 'arcsin', 'square', 'negative',
+    'reciprocal', 'add', 'subtract', 'multiply', 'divide', 'true_divide',
+    'power', 'maximum', 'minimum', 'log2', 'log10', 'expm1', 'log1p'))
+
+
+class UfuncsV(object):
+    """`x.ufuncs` of a model element."""
+
+    def __init__(self, elem):
+        self.elem = elem
 
 
 class NPElem(object):
@@ -378,12 +398,16 @@ class SMHooks(NAHooks, OpHooks):
             r = self.elem_attr(I, obj, name)
             if r is not NotImplemented:
                 return r
+        if isinstance(obj, UfuncsV):
+            return self.ufunc_attr(I, obj.elem, name)
         if isinstance(obj, NField):
             if name == 'element':
                 return Builtin('field.element', lambda v=0: PA.ired(to_rat(
                     v.a.flat[0] if isinstance(v, NA) else v)))
             if name in ('is_real',):
                 return obj.kind == 'R'
+            if name == 'field':
+                return obj
             raise PyRaise('AttributeError')
         if isinstance(obj, Rec):
             if name in obj.attrs:
@@ -397,6 +421,9 @@ class SMHooks(NAHooks, OpHooks):
                 return PA.imag_part(r)
             if name in ('conjugate', 'conj'):
                 return Builtin('conjugate', lambda: PA.conj(r))
+            if name in ('T', 'space', 'inner', 'norm', 'ufuncs', 'asarray'):
+                # a plain number is not a space element
+                raise PyRaise('AttributeError')
         r = OpHooks.on_getattr(self, interp, obj, name)
         if r is not NotImplemented:
             return r
@@ -556,6 +583,8 @@ class SMHooks(NAHooks, OpHooks):
         if name == 'T':
             ci = I.model.get('InnerProductOperator')
             return I.instantiate(ci, [x], {})
+        if name == 'ufuncs':
+            return UfuncsV(x)
         if isp:
             if name == 'parts':
                 return tuple(x.parts)
@@ -576,6 +605,69 @@ class SMHooks(NAHooks, OpHooks):
         if name == '__array__':
             return Builtin('__array__', lambda dt=None: x.data)
         return NotImplemented
+
+    # ---- x.ufuncs.<name>: the element API of the ufuncs as primitives (the
+    # dispatch machinery itself is property C17) ---------------------------
+    def ufunc_attr(self, I, x, name):
+        H = self
+        if name in ('sum', 'prod', 'max', 'min'):
+            def red(**k):
+                if k.get('axis') is not None or k.get('out') is not None:
+                    raise Undecided('ufuncs.%s with axis / out' % name)
+                vals = flat(x)
+                acc = vals[0]
+                for v in vals[1:]:
+                    if name == 'sum':
+                        acc = acc + v
+                    elif name == 'prod':
+                        acc = acc * v
+                    else:
+                        acc = H.maxmin(I, name, acc, v)
+                return PA.ired(acc)
+            return Builtin('ufuncs.' + name, red)
+        if name in ('power', 'multiply', 'add', 'subtract', 'divide',
+                    'true_divide', 'maximum', 'minimum'):
+            def bin_(other, out=None):
+                def f2(a, b):
+                    a, b = to_rat(a), to_rat(b)
+                    if name == 'power':
+                        if not b.is_const():
+                            raise Undecided('symbolic exponent')
+                        return PA.pow_q(a, b.constant(), H.signs)
+                    if name in ('maximum', 'minimum'):
+                        return H.maxmin(I, name[:3], a, b)
+                    return {'multiply': a * b, 'add': a + b,
+                            'subtract': a - b}.get(name, None) \
+                        if name in ('multiply', 'add', 'subtract') \
+                        else a / b
+                res = H.zipmap(x, other, f2)
+                if out is None:
+                    return res
+                H.write(I, out, res)
+                return out
+            return Builtin('ufuncs.' + name, bin_)
+        f1 = H.atom1(name)
+
+        def un(out=None):
+            res = H.map(x, f1)
+            if out is None:
+                return res
+            H.write(I, out, res)
+            return out
+        return Builtin('ufuncs.' + name, un)
+
+    def zipmap(self, x, other, f):
+        if isinstance(x, NPElem):
+            os_ = other.parts if isinstance(other, NPElem) else \
+                [other] * len(x.parts)
+            return NPElem(x.space, [self.zipmap(p, q, f)
+                                    for p, q in zip(x.parts, os_)])
+        oa = other.data if isinstance(other, NElem) else other
+        oa = _np.broadcast_to(na_of(oa).a, x.data.a.shape)
+        a = _np.empty(x.data.a.shape, dtype=object)
+        for idx in _np.ndindex(*a.shape):
+            a[idx] = PA.ired(f(x.data.a[idx], oa[idx]))
+        return NElem(x.space, NA(a, x.space.dt))
 
     def copy(self, x):
         if isinstance(x, NPElem):
@@ -691,8 +783,17 @@ class SMHooks(NAHooks, OpHooks):
 
         def g(*a, **k):
             un = lambda x: x.data if isinstance(x, NElem) else x
-            return f(*[un(x) for x in a], **{kk: un(v) for kk, v in
-                                            k.items()})
+            res = f(*[un(x) for x in a], **{kk: un(v) for kk, v in
+                                           k.items()})
+            if name in _EW_UFUNCS and k.get('out') is None and isinstance(
+                    res, NA) and res.dt.d.kind in 'fc':
+                # Tensor.__array_ufunc__: an elementwise ufunc applied to
+                # an element gives an element (C17 decides that protocol)
+                for x in a:
+                    if isinstance(x, NElem) and x.space.shape == res.a.shape:
+                        sp = x.space.twin(res.dt.d.kind == 'f')
+                        return NElem(sp, NA(red_arr(res.a), sp.dt))
+            return res
         return g
 
     def atom1(self, name):
@@ -785,6 +886,15 @@ class SMHooks(NAHooks, OpHooks):
             return Builtin('complex', lambda v=0: PA.ired(to_rat(v)))
         if name == 'float':
             def fl(v=0):
+                if isinstance(v, str) and v.strip().lstrip('+-').lower() in (
+                        'inf', 'infinity', 'nan'):
+                    t = v.strip().lower()
+                    if 'nan' in t:
+                        return Opaque('np.nan')
+                    return Opaque('-np.inf' if t.startswith('-')
+                                  else 'np.inf')
+                if isinstance(v, Opaque):
+                    return v            # nan / inf stay symbolic constants
                 r = PA.ired(to_rat(v))
                 if 'I' in r.vars():
                     raise PyRaise('TypeError')
@@ -847,6 +957,21 @@ class SMInterp(NAMixin, Interp):
         return super(SMInterp, self).assign(t, v, scope, func)
 
     def augassign(self, s, scope, func):
+        if isinstance(s.target, ast.Subscript):
+            base = self.ev(s.target.value, scope, func)
+            if isinstance(base, NElem):
+                # x[idx] op= v  ==  x[idx] = x[idx] op v  (covers masks and
+                # fancy indices, which give copies)
+                idx = self._na_index(s.target.slice, scope, func)
+                idx = idx.data if isinstance(idx, NElem) else idx
+                cur = self.hooks.on_subscript(self, base, idx)
+                v = self.ev(s.value, scope, func)
+                v = v.data if isinstance(v, NElem) else v
+                res = self.hooks.binop_na(self, type(s.op), cur, v) \
+                    if isinstance(cur, NA) or isinstance(v, NA) \
+                    else self.binop(type(s.op), cur, v)
+                self.hooks.store(self, base.data, idx, res)
+                return
         cur = self.ev(s.target, scope, func) if not isinstance(
             s.target, ast.Name) else scope.get(s.target.id, self)
         if isinstance(cur, (NElem, NPElem)):
